@@ -79,6 +79,7 @@ type pairState struct {
 	inCall        bool
 	calls         int
 	callsHealed   int
+	quietRun      int
 	healBound     int
 	stuckReported bool
 	outcomes      []string // recent outcomes
